@@ -125,7 +125,13 @@ pub fn run_all(p: &Arc<Prog>, s: Box<dyn Scheduler + Send>, cfg: &shuttle::Confi
     let mut guard = 0;
     while !shared.exhausted.load(Ordering::SeqCst) && out.len() < max_execs && guard < 10 * max_execs + 10 {
         guard += 1;
-        out.extend(run_once(p, shared.clone(), cfg.clone()));
+        let r = run_once(p, shared.clone(), cfg.clone());
+        if r.is_empty() && !shared.exhausted.load(Ordering::SeqCst) {
+            // the scheduler itself refused to go on (e.g. PCT: "test closure did not exercise any concurrency")
+            RETURNS.with(|x| x.borrow_mut().push((None, usize::MAX)));
+            break;
+        }
+        out.extend(r);
     }
     out
 }
